@@ -11,6 +11,12 @@ Theorem C20_pages_partition : forall (V : Type) (l : list (list N * V)) (size : 
   all_pages (S (length l)) l size [] = Some (fr pfx pfx_end l).
 Proof. exact @pages_partition. Qed.
 Print Assumptions C20_pages_partition.
+(* ... which are exactly the entries whose key begins with the record prefix: every origin-side record, nothing else *)
+Theorem C20_pages_complete : forall (V : Type) (l : list (list N * V)) (size : Z),
+  StronglySorted key_lt l -> (1 <= size)%Z ->
+  all_pages (S (length l)) l size [] = Some (List.filter (fun p => has_prefix pfx (fst p)) l).
+Proof. exact @pages_complete. Qed.
+Print Assumptions C20_pages_complete.
 
 (* (2) only entries of the range are listed, in strictly increasing key order *)
 Theorem C20_only_range : forall (V : Type) (l : list (list N * V)) lo hi x,
